@@ -205,6 +205,15 @@ def finish(res, tier, seed, level, t0, rule, assumptions, exhaustive=False, extr
            "exhaustive": exhaustive, "known_findings_hit": res.known}
     cov.update(res.notes)
     cov.update(extra or {})
+    if os.environ.get("VERIF_REPLAY_SIG"):
+        # --replay of a non-session payload: the check was re-run; does the recorded violation come back?
+        want = json.loads(os.environ["VERIF_REPLAY_SIG"])
+        again = [sig for sig, _ in res.violations if sig == want]
+        if again:
+            print("VIOLATION property=%s replay=%s" % (res.prop, os.environ.get("VERIF_REPLAY_PATH", "?")))
+            return 1
+        print("replay: the recorded violation did not recur (%d other violations)" % len(res.violations))
+        return 0
     lib.write_evidence(res.prop, tier, seed, level, cov, time.time() - t0, len(res.violations), assumptions)
     known_all = {f["id"]: f for f in lib.load_findings(res.prop)}
     for fid, n in sorted(res.known.items()):
@@ -222,6 +231,7 @@ def finish(res, tier, seed, level, t0, rule, assumptions, exhaustive=False, extr
                 break
             name = "-".join(str(sig[k]) for k in ("module", "ty", "a", "op", "kind", "tagging", "fault", "family", "syn", "reason", "style")
                             if sig.get(k) is not None)
+            payload.setdefault("tier", tier)
             path = lib.write_replay(res.prop, name.replace("/", "_"), payload)
             print("VIOLATION property=%s replay=%s" % (res.prop, path))
             log("  ", json.dumps(sig))
@@ -322,7 +332,8 @@ def check_C18(tier, seed):
                  ("life", False, ("-fwide-types",))]
     for planset, exact, flags in runs:
         codec_family("C18", tier, seed, planset, san="asan", modules=(9,) if flags else (9, 10), exact=exact, flags=flags, res=res, finish_it=False,
-                     valcap=(3 if quick else 8) if planset in ("mutations", "life") else 0, leafcap=3 if quick and planset == "mutations" else 0,
+                     valcap=(3 if quick else 8) if planset in ("mutations", "life") else (4 if quick and planset in ("split", "ioc") else 0),
+                     leafcap=3 if quick and planset == "mutations" else 0,
                      maxfail=6 if quick else 16, dense=not quick and planset == "mutations")
     return finish(res, tier, seed, "model_checking", t0,
                   "module VO (spec/Universe.tla): frames SEQUENCE { id CLASS.&id({Set}), val CLASS.&Type({Set}{@id}) } over four object sets; for every frame type, every row and boundary values of the row type: round trip per syntax; decoding of the reference encodings (DER, 16 BER styles, UPER, OER, XER layouts) must select exactly the row paired with the identifier (value equality includes the selected row); every 2-chunk split; identifier replaced by one without a row (must not be accepted) or by another row's (if accepted, the value must be of the type paired with the decoded identifier: Asn1Types!IocConsistent), in DER / padded BER / UPER / OER / XER, then print + free, or reset + decode a valid encoding into the same structure; byte mutations and allocation-failure histories; ASan+UBSan build with the allocation ledger: every crash, sanitizer report or unreleased block is an event no spec action explains; repeated with -fwide-types and -findirect-choice -fcompound-names",
@@ -350,10 +361,10 @@ def check_C13(tier, seed):
     opts = ["-fwide-types", "-fcompound-names", "-findirect-choice", "-fno-include-deps", "-fincludes-quoted"]
     if tier == "thorough":
         sets = [list(c) for r in range(1, len(opts) + 1) for c in itertools.combinations(opts, r)]
-        modules = (1, 2, 3, 5)
+        modules = (1, 2, 3, 5, 9)
     else:
         sets = OPTION_SETS_QUICK
-        modules = (1, 2)
+        modules = (1, 2, 9)
     consts = ("Mod <- TheMod", "ByteExact = FALSE")
     for mi in modules:
         mod, scns, st = gen_codec(mi, "enc", 2, exact=False, valcap=6 if tier == "quick" else 0, leafcap=8 if tier == "quick" else 0)
@@ -368,7 +379,7 @@ def check_C13(tier, seed):
         for e in evs:
             if e["a"] == "Encode" and "bytes" in e:
                 refbytes[e["id"]] = e["bytes"]
-        for flags in sets:
+        for flags in (sets if M.name != "VO" or tier == "thorough" else [sets[0], sets[-1]]):
             b = lib.build_module(M, flags=flags)
             if not b.ok:
                 sig = {"module": M.name, "a": "Compile", "reason": "option-build-failed", "style": " ".join(flags)}
@@ -1346,6 +1357,12 @@ CHECKS = {"C01": check_C01, "C02": check_C02, "C03": check_C03, "C04": check_C04
 
 def replay(prop, path):
     p = json.load(open(path))
+    if not (isinstance(p.get("module"), dict) and "scenario" in p and "trace_module" in p):
+        # compiler runs, helper calls, tool runs, thread schedules: re-run the check that produced the payload and
+        # look for the same signature
+        os.environ["VERIF_REPLAY_SIG"] = json.dumps(p["signature"])
+        os.environ["VERIF_REPLAY_PATH"] = path
+        return CHECKS[prop](p.get("tier", "quick"), int(os.environ.get("VERIF_SEED", "1")))
     res = Result(prop)
     M = Module(p["module"])
     scn = dict(p["scenario"], id=1)
@@ -1372,6 +1389,9 @@ def main(argv):
         if a.prop not in CHECKS:
             print("no check for " + a.prop, file=sys.stderr)
             return 2
+        # replay files of an earlier run describe an earlier tree
+        import shutil
+        shutil.rmtree(os.path.join(lib.VERIF, "replays", a.prop), ignore_errors=True)
         return CHECKS[a.prop](a.tier, seed)
     except Infra as e:
         print("INFRA-FAILURE: %s" % e, file=sys.stderr)
